@@ -828,6 +828,29 @@ func init() {
 					emit(joutLine("JOUT", formats[k%3], ms))
 				}
 			}
+			// every arrangement of up to 6 containers under two tags (A A A B B, A B A B A, ...), each occurrence with its own
+			// content, at top level and inside a container: no occurrence may be lost or turn up under the other tag
+			for n := 3; n <= 6; n++ {
+				for pat := 0; pat < 1<<uint(n); pat++ {
+					if tier != "thorough" && n == 6 && pat%3 != 0 {
+						continue
+					}
+					var ms []rscp.Message
+					for i := 0; i < n; i++ {
+						tg := A
+						if pat&(1<<uint(i)) != 0 {
+							tg = B
+						}
+						ms = append(ms, c(tg, s(S, uint16(100*n+i))))
+					}
+					emit(joutLine("JOUT", "jsonmerged", ms))
+					if pat%5 == 0 {
+						emit(joutLine("JOUT", "jsonmerged", []rscp.Message{c(C, ms...)}))
+						emit(joutLine("JOUT", "jsonsimple", ms))
+						emit(joutLine("JOUT", "json", ms))
+					}
+				}
+			}
 			n := tierPick(tier, 1200, 30000)
 			for i := 0; i < n; i++ {
 				var tags []rscp.Tag
